@@ -110,10 +110,15 @@ func delegationIdiom(f *ssa.Function, width int, put bool, method string) (bool,
 			ret = x
 		case *ssa.UnOp:
 			g, ok := x.X.(*ssa.Global)
-			if !ok || x.Op != token.MUL || g.Pkg.Pkg.Path() != "encoding/binary" {
+			if !ok || x.Op != token.MUL {
 				return false, "loads something other than the byte-order value"
 			}
-			if g.Name() != "LittleEndian" {
+			if g.Pkg.Pkg.Path() != "encoding/binary" {
+				// a package-level variable of the repository that holds binary.LittleEndian and is never reassigned
+				if !holdsLittleEndian(g) {
+					return false, "loads something other than the byte-order value"
+				}
+			} else if g.Name() != "LittleEndian" {
 				return false, "uses encoding/binary." + g.Name() + ", not LittleEndian"
 			}
 		case *ssa.Slice:
@@ -148,7 +153,7 @@ func delegationIdiom(f *ssa.Function, width int, put bool, method string) (bool,
 	// args[0] is the receiver (the loaded LittleEndian value)
 	if ld, ok := args[0].(*ssa.UnOp); !ok {
 		return false, "receiver is not encoding/binary.LittleEndian"
-	} else if g, ok := ld.X.(*ssa.Global); !ok || g.Name() != "LittleEndian" {
+	} else if g, ok := ld.X.(*ssa.Global); !ok || (g.Name() != "LittleEndian" || g.Pkg.Pkg.Path() != "encoding/binary") && !holdsLittleEndian(g) {
 		return false, "receiver is not encoding/binary.LittleEndian"
 	}
 	buf := args[1]
@@ -389,6 +394,13 @@ func checkC16(p *Prog, r *Report) {
 			pan, ret, und := evalBoolCFG(p, f, cv)
 			key := fmt.Sprintf("machine.%s(c=%v)", name, cv)
 			if und != "" {
+				// the test lives in a helper: decide on the abstract paths (helper spliced in), on which every
+				// branch fact must still be about the parameter alone
+				if pan2, ret2, ok := evalBoolPaths(p, f, cv); ok {
+					pan, ret, und = pan2, ret2, ""
+				}
+			}
+			if und != "" {
 				r.Unknown("R16c", key, f.Pos(), "branch condition is not a function of the parameter alone: "+und)
 				continue
 			}
@@ -578,3 +590,76 @@ func evalBoolCFG(p *Prog, f *ssa.Function, cv bool) (panics, returns bool, undec
 
 var _ = sort.Strings
 var _ = strings.Join
+
+// holdsLittleEndian: g is a package-level variable of the repository initialised with
+// encoding/binary.LittleEndian and assigned nowhere else.
+func holdsLittleEndian(g *ssa.Global) bool {
+	p := curProg
+	if p == nil || g.Pkg == nil || !InRepo(g.Pkg.Pkg.Path()) {
+		return false
+	}
+	ini := g.Pkg.Func("init")
+	if ini == nil {
+		return false
+	}
+	n, ok := 0, true
+	p.instrs(ini, func(b *ssa.BasicBlock, i int, in ssa.Instruction) {
+		if st, isSt := in.(*ssa.Store); isSt && st.Addr == ssa.Value(g) {
+			n++
+			ld, isLd := st.Val.(*ssa.UnOp)
+			if !isLd {
+				ok = false
+				return
+			}
+			src, isG := ld.X.(*ssa.Global)
+			if !isG || src.Pkg.Pkg.Path() != "encoding/binary" || src.Name() != "LittleEndian" {
+				ok = false
+			}
+		}
+	})
+	for _, fn := range p.srcFuncs {
+		if fn == ini {
+			continue
+		}
+		p.instrs(fn, func(b *ssa.BasicBlock, i int, in ssa.Instruction) {
+			if st, isSt := in.(*ssa.Store); isSt && st.Addr == ssa.Value(g) {
+				ok = false
+			}
+		})
+	}
+	return ok && n == 1
+}
+
+// evalBoolPaths: evaluation of f(c bool, …) under c = cv on its abstract interprocedural paths. ok is false
+// when some branch on a path depends on anything but c.
+func evalBoolPaths(p *Prog, f *ssa.Function, cv bool) (pan, ret, ok bool) {
+	if len(f.Params) == 0 {
+		return false, false, false
+	}
+	c := f.Params[0].Name()
+	ips, okp := p.ipaths(f)
+	if !okp || len(ips) == 0 {
+		return false, false, false
+	}
+	t, fl := c+" == true", c+" == false"
+	t2, fl2 := "true == "+c, "false == "+c
+	for _, ip := range ips {
+		isT := ip.Rels[t] || ip.Rels[t2]
+		isF := ip.Rels[fl] || ip.Rels[fl2]
+		for k := range ip.Rels {
+			if k != t && k != fl && k != t2 && k != fl2 {
+				return false, false, false
+			}
+		}
+		if cv && isF || !cv && isT {
+			continue // not taken under this value
+		}
+		switch ip.Exit {
+		case "panic":
+			pan = true
+		case "return":
+			ret = true
+		}
+	}
+	return pan, ret, true
+}
